@@ -185,6 +185,42 @@ func monC06(c *runCtx) {
 				})
 			}
 		}
+		// delete the entries one by one in a shuffled order: after each deletion the file must decode to the rest
+		if si%4 == c.shard%4 {
+			rest := append([]string{}, sorted...)
+			c.rng.Shuffle(len(rest), func(i, j int) { rest[i], rest[j] = rest[j], rest[i] })
+			for len(rest) > 0 {
+				victim := rest[len(rest)-1]
+				rest = rest[:len(rest)-1]
+				var derr error
+				if c.guarded("C06.file-canonical", "delete", func() string { return fmt.Sprintf("DeleteEntry(%q)", victim) }, func() { derr = ix.DeleteEntry(root, []byte(victim)) }) {
+					break
+				}
+				c.oracle("C06.file-canonical")
+				if derr != nil {
+					c.fail("C06.file-canonical", "delete-error", "delete", "DeleteEntry(%q) on %q: %v", victim, sorted, derr)
+					break
+				}
+				raw, _ := os.ReadFile(filepath.Join(root, "index"))
+				dec, perr := gitfmt.ParseIndex(raw)
+				want := append([]string{}, rest...)
+				sort.Strings(want)
+				var got []string
+				if perr == nil {
+					for _, e := range dec.Entries {
+						got = append(got, e.Path)
+					}
+				}
+				if perr != nil || strings.Join(got, "\x00") != strings.Join(want, "\x00") {
+					c.fail("C06.file-canonical", "entries-differ-after-delete", "delete", "after DeleteEntry(%q) the index file holds %q (err %v), expected %q", victim, got, perr, want)
+					break
+				}
+				if _, rerr := va.NewIndex(root); rerr != nil {
+					c.fail("C06.file-canonical", "index-unreadable-after-delete", "delete", "after DeleteEntry(%q) NewIndex fails: %v", victim, rerr)
+					break
+				}
+			}
+		}
 		if si < 3*c.of {
 			c.sample(fmt.Sprintf("P=%q inserted in order %q; %d queries", sorted, P, len(queries)))
 		}
